@@ -418,6 +418,9 @@ func TestFixedSpecs(t *testing.T) {
 		"grammar seq_b;\nstart = \"a+\" \"b\";\n",
 		"grammar seq_c;\nstart = \"[0-9]+\" \"x?\";\n",
 		"grammar seq_d;\nNUM = /[0-9]+/\nOPT = /x?y/\nstart = NUM OPT;\n",
+		// a pattern that is meaningless in a well-formed prefix and unparsable as a whole, as the last pattern
+		"grammar g;\nID = /[a-z]+/\nINT = /[0-9a-z_-]/\nstart = ID INT;\n",
+		"grammar g;\nAA = /x{3,1})/\nstart = AA \"y\";\n",
 		// several tokens used without definition, several unknown predefined names
 		"grammar g;\nAA = $NOPE\nBB = $NADA\nCC = $NIX\nstart = AA BB CC DD EE FF;\n",
 	}
